@@ -145,10 +145,14 @@ def check_ring(rep, mod, cfg, name):
         tag = '%s/%s%s' % (cfg, dem, '' if not al else ' alias=' + ','.join('%s=%s' % kv for kv in sorted(al.items())))
         ctx = contracts.Ctx()
         summ, _ = contracts.wrapper_summaries(mod, ctx)
-        try:
-            summ[mod.find('Goldilocks::fromString(std::__cxx11::basic_string<char, std::char_traits<char>, std::allocator<char> > const&, int)')] = fromstring_summary(ctx)
-        except KeyError:
-            pass
+        for fs in mod.find_re(r'^Goldilocks::fromString\('):
+            if mod.dem[fs].startswith('Goldilocks::fromString(Goldilocks::Element&'):
+                def fs_void(I, args, ins, h=fromstring_summary(ctx)):
+                    I.store_cell(args[0], h(I, args[1:], ins), 8)
+                    return None
+                summ[fs] = fs_void
+            else:
+                summ[fs] = fromstring_summary(ctx)
         if any(kind(p) == 'string' for p in ps0):
             summ.update(string_scalar_summaries(mod))
         ext = {p.name: 24 for p in ps0 if kind(p) == 'ext'}
@@ -221,7 +225,7 @@ def kernel_fallback(rep, cfg, name, op, ps, al, tag, site):
     ins = []
     syms = {}
     for p in ps:
-        if p.name == 'result':
+        if p.name == names[0]:
             continue
         i = idx[p.name]
         tgt = alias.get(i, i)
@@ -230,8 +234,12 @@ def kernel_fallback(rep, cfg, name, op, ps, al, tag, site):
             if key not in syms:
                 syms[key] = 'x%d_%d' % (tgt, j)
                 ins.append((i, 8 * j, syms[key], 'u64'))
-    ia = alias.get(idx['a'], idx['a'])
-    ib = alias.get(idx['b'], idx['b']) if 'b' in idx else None
+    # roles by position: (result, a[, b])
+    opnames = [n_ for n_ in names if n_ != names[0]]
+    if names[0] != 'result':
+        idx['result'] = 0
+    ia = alias.get(idx[opnames[0]], idx[opnames[0]])
+    ib = alias.get(idx[opnames[1]], idx[opnames[1]]) if len(opnames) > 1 else None
     specs = []
     if op in ('mul', 'square'):
         def prod(A):
@@ -491,11 +499,11 @@ def ext_summaries(mod):
     def copy(I, args, ins):
         wr(I, args[0], rd(I, args[1]))
     S = {}
-    for n in mod.find_re(r'^Goldilocks3::mul\(Goldilocks::Element \(&\) \[3\], Goldilocks::Element \(&\) \[3\], Goldilocks::Element \(&\) \[3\]\)'):
+    for n in mod.find_re(r'^Goldilocks3::mul\(Goldilocks::Element \(&\) \[3\], Goldilocks::Element \(&\) \[3\], Goldilocks::Element \(&\) \[3\]\)$'):
         S[n] = mul
-    for n in mod.find_re(r'^Goldilocks3::inv\(Goldilocks::Element \(&\) \[3\], Goldilocks::Element \(&\) \[3\]\)'):
+    for n in mod.find_re(r'^Goldilocks3::inv\(Goldilocks::Element \(&\) \[3\], Goldilocks::Element \(&\) \[3\]\)$'):
         S[n] = inv
-    for n in mod.find_re(r'^Goldilocks3::copy\(Goldilocks::Element \(&\) \[3\], Goldilocks::Element const \(&\) \[3\]\)'):
+    for n in mod.find_re(r'^Goldilocks3::copy\(Goldilocks::Element \(&\) \[3\], Goldilocks::Element const \(&\) \[3\]\)$'):
         S[n] = copy
     return S
 
@@ -548,7 +556,7 @@ def run(rep, tier, seed):
     cfgs = ('avx2', 'avx512') if tier == 'thorough' else ('avx2',)
     for cfg in cfgs:
         mod = front.module(cfg)
-        ring = mod.find_re(r'^Goldilocks3::(add|sub|neg|mul|square|div|mulScalar)\(')
+        ring = [n_ for n_ in mod.find_re(r'^Goldilocks3::(add|sub|neg|mul|square|div|mulScalar)\(') if "'lambda'" not in mod.dem[n_] and '::operator()' not in mod.dem[n_]]
         rep.floor('ring operations[%s]' % cfg, len(ring), 17)
         for n in ring:
             check_ring(rep, mod, cfg, n)
